@@ -34,8 +34,9 @@ pub struct Entry {
     pub strict: bool,
     /// the last substantive change was an intra-line pure deletion (F14 class)
     pub last_was_pure_deletion: bool,
-    /// author of the line before that pure deletion
-    pub prev_last: Option<Actor>,
+    /// authors of the line before that pure deletion (transitively through
+    /// consecutive pure deletions)
+    pub prev_chain: BTreeSet<Actor>,
     /// commit epoch in which the last substantive change happened
     pub epoch: u32,
 }
@@ -88,7 +89,7 @@ impl Model {
                         also_ok: BTreeSet::new(),
                         strict,
                         last_was_pure_deletion: false,
-                        prev_last: None,
+                        prev_chain: BTreeSet::new(),
                         epoch: self.epoch,
                     },
                 );
@@ -382,7 +383,13 @@ pub fn apply_edit(fs: &mut FileState, model: &mut Model, who: Actor, edit: &Edit
                 let mut w: Vec<&str> = words.clone();
                 w.remove(j);
                 let new = format!("{ind}{}", w.join(" "));
-                let prev = model.get(&old).map(|e| e.last);
+                let mut prev: BTreeSet<Actor> = BTreeSet::new();
+                if let Some(e) = model.get(&old) {
+                    prev.insert(e.last);
+                    if e.last_was_pure_deletion {
+                        prev.extend(e.prev_chain.iter().cloned());
+                    }
+                }
                 if key_of(&new) != key_of(&old) && model.get(&new).is_none() {
                     model.wrote(&new, who, true);
                     let k = key_of(&new);
@@ -390,7 +397,7 @@ pub fn apply_edit(fs: &mut FileState, model: &mut Model, who: Actor, edit: &Edit
                         // remembered so that the known-finding class F14 can be
                         // recognised by the oracle (not silently accepted)
                         e.last_was_pure_deletion = true;
-                        e.prev_last = prev;
+                        e.prev_chain = prev;
                     }
                     fs.lines[i] = new;
                 } else {
